@@ -29,7 +29,7 @@ CLAIMED = {
         "generated corpus of derive programs + proptest random search per program with four oracles: agreement with the generated command, "
         "shape-rule interpreter over ArgMatches (reference model), print->parse round trip, update model over histories; bounded-exhaustive "
         "value-enum name tables; shrinking",
-        "A generated, compiled corpus of derive families (130 committed: systematic shape x value-type x spelling matrix + random "
+        "A generated, compiled corpus of derive families (138 committed: systematic shape x value-type x spelling matrix + random "
         "composition with flatten / Option<flatten> / subcommand enums incl. nested, flattened and external variants, rename_all, ids, "
         "aliases, defaults, num_args, delimiters; thorough adds 150 families regenerated from VERIF_SEED) is driven by generated command "
         "lines, generated values and generated update histories. The oracle is an interpreter of the type-shape rules over a plain-data "
